@@ -197,7 +197,12 @@ pub fn exec(cx: &mut Ctx, c: &Case) {
             let mut h: Box<dyn api::DynHash> = c.id.new();
             let mut at = 0;
             for &k in &cuts {
-                h.update(&m[at..k]);
+                // the by-value form (Update::chain / Digest::chain) is a provided method a type may override
+                if c.mseed & 16 != 0 {
+                    h = h.chain_box(&m[at..k]);
+                } else {
+                    h.update(&m[at..k]);
+                }
                 at = k;
                 // continue on a clone taken mid-message (the original is dropped), or on an
                 // instance that was busy with another message and is overwritten by clone_from
@@ -210,7 +215,11 @@ pub fn exec(cx: &mut Ctx, c: &Case) {
                     h = d;
                 }
             }
-            h.update(&m[at..]);
+            if c.mseed & 48 == 48 {
+                h = h.chain_box(&m[at..]);
+            } else {
+                h.update(&m[at..]);
+            }
             h.finalize_box()
         });
         api::force_backend(0);
